@@ -359,13 +359,15 @@ def run(ctx):
             "mid2": ({"TreeSet": "<- TreesMid", "Ops": "<- OpsAll", "MaxLen": 2, "Prots": D}, ctx.pick(25, 200)),
             "dang2": ({"TreeSet": "<- TreesDang", "Ops": "<- OpsAll", "MaxLen": 2, "Prots": D}, ctx.pick(8, 60)),
             "deep2": ({"TreeSet": "<- TreesDeep", "Ops": "<- OpsWalk", "MaxLen": 2, "Prots": D}, ctx.pick(6, 60)),
+            "mv2": ({"TreeSet": "<- TreesMove", "Ops": "<- OpsMove", "MaxLen": 2, "Prots": D}, ctx.pick(6, 60)),
+            "unch3": ({"TreeSet": "<- TreesUnch", "Ops": "<- OpsUnch", "MaxLen": 3, "Prots": D}, ctx.pick(8, 60)),
             "gl3": ({"TreeSet": "<- TreesGl", "Ops": "<- OpsAll", "MaxLen": 3, "Prots": D}, 60),
             "core2": ({"TreeSet": "<- TreesCore", "Ops": "<- OpsAll", "MaxLen": 2, "Prots": D}, 300),
             "small3": ({"TreeSet": "<- TreesSmall", "Ops": "<- OpsAll", "MaxLen": 3, "Prots": D}, 300),
             "full2": ({"TreeSet": "<- TreesFull", "Ops": "<- OpsNoClone", "MaxLen": 2, "Prots": D}, 400),
         }
-        order = ctx.pick(["names1", "dang2", "deep2", "tiny3", "mid2"],
-                         ["names1", "dang2", "deep2", "tiny3", "mid2", "gl3", "core2", "small3", "full2"])
+        order = ctx.pick(["names1", "dang2", "deep2", "mv2", "unch3", "tiny3", "mid2"],
+                         ["names1", "dang2", "deep2", "mv2", "unch3", "tiny3", "mid2", "gl3", "core2", "small3", "full2"])
         only = os.environ.get("C17_ONLY", "")
         if only:
             order = [x for x in only.split(",") if x in plans]
@@ -376,13 +378,19 @@ def run(ctx):
         ctx.log(f"elements done; code implements FixDelete={flags['FixDelete']} FixPatch={flags['FixPatch']}")
         exhaustive = True
         deadline = ctx.t0 + ctx.pick(78, 1080)
+        # the small targeted configurations always run to the end (each is a few seconds of work); the
+        # large ones share the time that is left, in proportion to their nominal budgets
+        small = {"names1", "dang2", "deep2", "mv2", "unch3"}
         weight = {nm: plans[nm][1] for nm in order}
         for i, nm in enumerate(order):
             dot, fixed = submitted[nm]
-            # share of the time that is left, in proportion to the nominal budgets of the remaining phases
-            left = max(5.0, deadline - time.time() - ctx.pick(12, 200))
-            share = left * weight[nm] / sum(weight[x] for x in order[i:])
-            st = graph_replay(ctx, pool, jobs, nm, dot, fixed, unsafe, comps, max(5.0, min(share, plans[nm][1] * 3)))
+            if nm in small:
+                budget = ctx.pick(60, 300)
+            else:
+                left = max(5.0, deadline - time.time() - ctx.pick(12, 200))
+                rest = [x for x in order[i:] if x not in small]
+                budget = max(5.0, min(left * weight[nm] / sum(weight[x] for x in rest), plans[nm][1] * 3))
+            st = graph_replay(ctx, pool, jobs, nm, dot, fixed, unsafe, comps, budget)
             if st.get("truncated") or st.get("unreached"):
                 exhaustive = False
         if not only or "traces" in only:
@@ -424,12 +432,13 @@ def replay(ctx, path):
             dump = os.path.join(ctx.tmpdir("names"), "names")
             unsafe, comps = names_level(ctx, pool, tlc.run("WorkTreeConfNamesMC.tla", "WorkTreeConfNamesMC.cfg", workers=2,
                                                             dump_states=dump, timeout=300), dump)
-            steps = [{"op": s["op"], "tree": s["tree"], "alts": None, "plan": None} for s in obj["steps"]]
+            steps = [{"op": s["op"], "tree": s["tree"], "mv": s.get("mv"), "alts": None, "plan": None} for s in obj["steps"]]
             job = {"prot": obj["prot"], "prefix": steps[:-1], "finals": steps[-1:], "keep_obs": True}
             sent, it = pool.run([job], {}, unsafe, comps)
             for r in it:
                 for i, o in enumerate(r["obs"]):
-                    print(f"step {i}: {lib.ENTRY[o['op']]} [{lib.tree_show(o['tree'])}] -> {o['res']} {o['exc']}")
+                    what = lib.move_show(o["mv"]) if o.get("mv") else lib.tree_show(o["tree"])
+                    print(f"step {i}: {lib.ENTRY[o['op']]} [{what}] -> {o['res']} {o['exc']}")
                     print("   work tree:", {"/".join(p[2:]): nd for p, nd in o["fs"] if p[:2] == ["p", "repo"] and len(p) > 2 and p[2] != ".git"})
                 for v in r["violations"]:
                     print(f"   VIOLATED at step {v['step']}: {v['sig']}\n      {v['what']}")
